@@ -50,6 +50,7 @@ def units(tier):
         kinds = B.kinds_of(sh)
         for di in range(len(B.default_masks(kinds))):
             out.append((si, di))
+    out += [("special", name) for name in SPECIALS]
     return out
 
 
@@ -478,12 +479,178 @@ def run_program(kinds, mask, dmask, flavour, tier, res, only=None, ref=None):
         prog.close()
 
 
+# ------------------------------------------------------------------------------------------------ special programs
+# (1) textually identical signatures in two modules, annotations kept as strings (`from __future__ import annotations`): the
+#     text `Thing` names a different class in each module, every parameter is converted by the rules of ITS module's class;
+#     both binding orders, from a cold state, direct / method / callable-instance flavours.
+# (2) callables whose FIRST parameter is an annotated *args (a bound method then keeps the whole signature:
+#     inspect.signature(obj.m) == (*args: int, **kw: float)).
+
+_TWIN_SRC = """from __future__ import annotations
+import dataclasses
+
+@dataclasses.dataclass
+class Thing:
+    x: {T}
+
+def build(p: Thing, n: int = 0, *rest: Thing, **named: Thing):
+    return ("build", p, n, rest, named)
+
+def kwo(*, p: Thing, q: "Thing" = None):
+    return ("kwo", p, q)
+
+class Host:
+    def meth(self, p: Thing, /, n: int = 0, *rest: Thing, **named: Thing):
+        return ("meth", p, n, rest, named)
+    def __call__(self, p: Thing, *rest: Thing):
+        return ("call", p, rest)
+
+# bound where the names are bound (decorator-style use): a string annotation means what it means in THIS module
+from typelib import binding as _binding
+HOST = Host()
+BOUND = dict()
+for _api in ("bind", "wrap"):
+    for _fname, _target in (("build", build), ("kwo", kwo), ("meth", HOST.meth), ("call", HOST)):
+        try:
+            BOUND[(_api, _fname)] = (True, getattr(_binding, _api)(_target))
+        except Exception as _e:
+            BOUND[(_api, _fname)] = (False, _e)
+"""
+_TWIN_CALLS = [
+    ("build", (({"x": "1"}, "3"), {})),
+    ("build", (({"x": "1"}, "3", {"x": "2"}), {"k": {"x": "4"}})),
+    ("build", ((), {"p": {"x": "1"}, "z": {"x": "5"}})),
+    ("kwo", ((), {"p": {"x": "1"}, "q": {"x": "2"}})),
+    ("meth", (({"x": "1"}, "3", {"x": "2"}), {"k": {"x": "4"}})),
+    ("call", (({"x": "1"}, {"x": "2"}), {})),
+]
+
+
+def _twin_expected(mod, T, fname, a, k):
+    conv = int if T == "int" else str
+    th = lambda w: mod.Thing(x=conv(w["x"]))  # noqa: E731
+    if fname in ("build", "meth"):
+        b = inspect.signature(mod.build).bind(*a, **k)
+        p = th(b.arguments["p"])
+        n = int(b.arguments.get("n", 0))
+        rest = tuple(th(w) for w in b.arguments.get("rest", ()))
+        named = {kk: th(w) for kk, w in b.arguments.get("named", {}).items()}
+        return (fname, p, n, rest, named)
+    if fname == "kwo":
+        return ("kwo", th(k["p"]), th(k["q"]) if "q" in k else None)
+    return ("call", th(a[0]), tuple(th(w) for w in a[1:]))
+
+
+def _reraise(e):
+    raise e
+
+
+def special_twin_modules(res):
+    names = ("tlg_c10_twin_a", "tlg_c10_twin_b")
+    Ts = ("int", "str")
+    for order in ((0, 1), (1, 0)):
+        for api in ("bind", "wrap"):
+            cold.clear_all()
+            try:
+                res.programs += 1
+                # the modules bind their own callables while they are loaded, in this order: the second is the one at risk
+                mods = [None, None]
+                for i in order:
+                    mods[i] = mkmod(names[i], _TWIN_SRC.format(T=Ts[i]))
+                for i in order:
+                    for fname, (a, k) in _TWIN_CALLS:
+                        res.evals += 1
+                        res.hit(f"special:twin-modules:{api}:{fname}")
+                        okb, b = mods[i].BOUND[(api, fname)]
+                        exp = _twin_expected(mods[i], Ts[i], fname, a, k)
+                        out = gcall(b, *a, **k) if okb else gcall(_reraise, b)
+                        key = h64("twin", api, order, i, fname, repr(a), repr(k), out.ok, repr(out.val) if out.ok else out.excname)
+                        res.outcomes.add(key)
+                        if out.ok:
+                            res.nontrivial.add(key)
+                        if not (out.ok and same(out.val, exp)):
+                            pos = "first" if order[0] == i else "second"
+                            got = repr(out.val) if out.ok else f"raises {out.excname}: {str(out.exc)[:80]}"
+                            res.violation(
+                                f"C10/special/twin-modules-string-annotations/{fname}/{pos}-bound/" + ("wrong-conversion" if out.ok else "raises:" + out.excname),
+                                f"two modules define `Thing` (x: int / x: str) and textually identical callables under `from __future__ import annotations`; "
+                                f"{api}({mods[i].__name__}.{fname}) bound {pos}, called with {a!r} {k!r}: got {got}, expected {exp!r}",
+                                {"special": "twin-modules"},
+                            )
+            finally:
+                for n_ in names:
+                    dropmod(n_)
+
+
+_LEAD_SRC = """
+class Rec:
+    def meth(*args: int, **kw: float):
+        return ("meth", args[1:], kw)
+    @classmethod
+    def cmeth(*args: int, **kw: float):
+        return ("cmeth", args[1:], kw)
+    @staticmethod
+    def smeth(*args: int, **kw: float):
+        return ("smeth", args, kw)
+    def __call__(*args: int, **kw: float):
+        return ("call", args[1:], kw)
+    def only(*args: int):
+        return ("only", args[1:])
+
+def func(*args: int, **kw: float):
+    return ("func", args, kw)
+"""
+
+
+def special_leading_varargs(res):
+    cold.clear_all()
+    m = mkmod("tlg_c10_lead", _LEAD_SRC)
+    try:
+        r = m.Rec()
+        targets = [("meth", r.meth), ("cmeth", m.Rec.cmeth), ("cmeth-via-instance", r.cmeth), ("smeth", m.Rec.smeth), ("call", r), ("only", r.only), ("func", m.func)]
+        calls = [(("1",), {}), (("1", "2"), {"z": "3"}), ((), {"z": "3"}), ((), {})]
+        for api in ("bind", "wrap"):
+            for name, target in targets:
+                res.programs += 1
+                cold.clear_all()
+                b = gcall(getattr(typelib.binding, api), target)
+                for a, k in calls:
+                    if name == "only" and k:
+                        continue
+                    res.evals += 1
+                    res.hit(f"special:leading-varargs:{api}:{name}")
+                    tag = name.split("-")[0]
+                    ea = tuple(int(x) for x in a)
+                    exp = (tag, ea) if name == "only" else (tag, ea, {kk: float(v) for kk, v in k.items()})
+                    out = gcall(b.val, *a, **k) if b.ok else b
+                    key = h64("lead", api, name, repr(a), repr(k), out.ok, repr(out.val) if out.ok else out.excname)
+                    res.outcomes.add(key)
+                    if out.ok:
+                        res.nontrivial.add(key)
+                    ok = out.ok and same(out.val, exp) and all(type(x) is int for x in out.val[1])
+                    if not ok:
+                        got = repr(out.val) if out.ok else f"raises {out.excname}: {str(out.exc)[:80]}"
+                        res.violation(
+                            f"C10/special/leading-annotated-varargs/{name}/" + ("unconverted" if out.ok else "raises:" + out.excname),
+                            f"{api}() of the {name} flavour of `def f(*args: int, **kw: float)` (inspect.signature keeps *args for it), called with {a!r} {k!r}: got {got}, expected {exp!r}",
+                            {"special": "leading-varargs"},
+                        )
+    finally:
+        dropmod("tlg_c10_lead")
+
+
+SPECIALS = {"twin-modules": special_twin_modules, "leading-varargs": special_leading_varargs}
+
+
 def _masks_full_first(n, masks):
     full = (1 << n) - 1
     return [full] + [m for m in masks if m != full]
 
 
 def run_unit(unit, tier, res):
+    if unit[0] == "special":
+        SPECIALS[unit[1]](res)
+        return
     si, di = unit
     kinds = B.kinds_of(B.kind_shapes(NMAX[tier])[si])
     dmask = B.default_masks(kinds)[di]
@@ -498,6 +665,9 @@ def run_unit(unit, tier, res):
 
 
 def replay(case, tier, res):
+    if case.get("special"):
+        SPECIALS[case["special"]](res)
+        return
     only = case["call"]
     if only != "meta":
         only = (only[0], tuple(only[1]))
